@@ -152,6 +152,38 @@ type caseState struct {
 	deliverys atomic.Int64
 
 	tunnels []*tunnel
+
+	// ports leased to this case (released when the case ends): a port of the static range that is only
+	// transiently unbound (proxy re-registration, visitor restart) must not be handed to another case
+	ports []int
+}
+
+var (
+	leaseMu sync.Mutex
+	leased  = map[int]bool{}
+)
+
+func (cs *caseState) getPort() int {
+	for {
+		p := pa.Get()
+		leaseMu.Lock()
+		if !leased[p] {
+			leased[p] = true
+			cs.ports = append(cs.ports, p)
+			leaseMu.Unlock()
+			return p
+		}
+		leaseMu.Unlock()
+	}
+}
+
+func (cs *caseState) releasePorts() {
+	leaseMu.Lock()
+	for _, p := range cs.ports {
+		delete(leased, p)
+	}
+	cs.ports = nil
+	leaseMu.Unlock()
 }
 
 func newCaseState(c *h.Case) *caseState {
@@ -189,11 +221,11 @@ type backend struct {
 
 // listenStatic binds a UDP socket on a port of the check's private static range: stale flows of other
 // programs on this host (KCP / QUIC retransmissions towards a closed ephemeral port) can never reach it.
-func listenStatic() (*net.UDPConn, error) {
+func (cs *caseState) listenStatic() (*net.UDPConn, error) {
 	var err error
 	for try := 0; try < 8; try++ {
 		var conn *net.UDPConn
-		conn, err = net.ListenUDP("udp", &net.UDPAddr{IP: net.IPv4(127, 0, 0, 1), Port: pa.Get()})
+		conn, err = net.ListenUDP("udp", &net.UDPAddr{IP: net.IPv4(127, 0, 0, 1), Port: cs.getPort()})
 		if err == nil {
 			return conn, nil
 		}
@@ -202,7 +234,7 @@ func listenStatic() (*net.UDPConn, error) {
 }
 
 func startBackend(cs *caseState, tun int) (*backend, error) {
-	conn, err := listenStatic()
+	conn, err := cs.listenStatic()
 	if err != nil {
 		return nil, err
 	}
@@ -340,7 +372,7 @@ type user struct {
 }
 
 func startUser(cs *caseState, tun *tunnel, idx int) (*user, error) {
-	conn, err := listenStatic()
+	conn, err := cs.listenStatic()
 	if err != nil {
 		return nil, err
 	}
